@@ -291,3 +291,90 @@ def no_symbol_cache(chk, F):
                "%s takes a symbol from builder state (%s) instead of resolving the name in the current scope: a name "
                "scanned as look-ahead before a scope is popped binds to the dead scope" % (start, sorted(set(reads)))
                if reads else "%s does not resolve through the frame stack" % start, "src/ExpressionBuilder.cpp")
+
+
+# ---------------------------------------------------------------------------------------------- R-LEXSCOPE
+def lexer_scope(chk, F, G, T, rid="R-LEXSCOPE"):
+    """The scanner decides T_ID / T_TYPENAME by asking the builder about the *current* scope (is_type).  A construct
+    that closes a scope at its last token must therefore close it before the parser asks the scanner for the next
+    token: the reductions from the shift of the construct's last terminal to the closing callback must all be
+    default reductions taken without a look-ahead.  (Constructs that end in an expression or statement have no last
+    token of their own; their extent is decided by the look-ahead and they are not obliged.)"""
+    from ..stackmachine import Lin
+    chk.rule(rid, "for every production that ends in a terminal (up to nullable symbols) and whose final action closes a "
+                  "scope: from the shift of that terminal to the closing callback the parser performs only default "
+                  "reductions without look-ahead, so the first token after the construct is scanned in the outer scope")
+    nullable = set()
+    changed = True
+    while changed:
+        changed = False
+        for r in G.rules:
+            if r.lhs not in nullable and all(s in nullable for s in r.rhs):
+                nullable.add(r.lhs)
+                changed = True
+    closers = set()
+    for r in G.rules:
+        for c in r.calls:
+            paths, _ = T.paths_for(r, c, Lin(0) if T.g else None)
+            for p in paths or []:
+                e = p.eff.get("R")
+                if e is not None and e.is_const() and e.c < 0:
+                    closers.add(c.name)
+    if len(closers) < 8:
+        raise AnalysisBroken("only %d scope-closing callbacks found" % len(closers))
+
+    def consistent(st):
+        return not st.shifts and not st.reductions and st.default is not None
+
+    n = 0
+    for r in G.rules:
+        if r.host is not None or not r.calls or r.calls[-1].name not in closers:
+            continue
+        terms = [i for i, s in enumerate(r.rhs) if G.is_terminal(s)]
+        if not terms:
+            continue
+        k = terms[-1]
+        tail = r.rhs[k + 1:]
+        if any(s not in nullable for s in tail):
+            continue        # ends in an expression / statement: extent decided by the look-ahead, inherent
+        n += 1
+        bad = None
+        starts = [st for st in G.states if (r.num, k + 1) in st.items]
+        if not starts:
+            raise AnalysisBroken("no automaton state after the last terminal of `%s`" % r.sig)
+        for st0 in starts:
+            st, dot, steps = st0, k + 1, 0
+            while True:
+                steps += 1
+                if steps > 40:
+                    bad = "no fixpoint"
+                    break
+                if not consistent(st):
+                    bad = "state %d (after `%s`) has to look at the next token (%s)" % (
+                        st.num, " ".join(r.rhs[:dot]), ", ".join(sorted(list(st.shifts) + list(st.reductions))[:4]))
+                    break
+                e = G.rules[st.default] if st.default >= 0 else None
+                if e is None:
+                    bad = "accept"
+                    break
+                if e.num == r.num:
+                    break                   # the closing reduction itself, without look-ahead
+                if e.rhs:
+                    bad = "a non-empty reduction (%s) intervenes" % e.sig
+                    break
+                nxt = st.gotos.get(e.lhs)
+                if nxt is None:
+                    bad = "no goto"
+                    break
+                st = G.states[nxt]
+                if dot < len(r.rhs) and e.lhs == r.rhs[dot]:
+                    dot += 1
+            if bad:
+                break
+        chk.ob(rid, "%s|%s" % (r.calls[-1].name, r.sig), bad is None,
+               "`%s` closes its scope (%s) only after the parser has read the token that follows the construct: %s. That "
+               "token is classified (name of a type or not) in the scope that is being closed, so text that follows "
+               "the construct in the same block is read differently than when it is parsed as a block of its own" %
+               (r.sig, r.calls[-1].name, bad), "src/parser.y:%s" % r.line)
+    if n < 10:
+        raise AnalysisBroken("only %d scope-closing productions ending in a terminal" % n)
